@@ -94,6 +94,10 @@ def compile_program(src, args=(), name="p", want_pre=None, codegen=True):
         return Outcome("ok", pctx=pctx, dctx=dctx, cctx=cctx, header=header, source=source,
                        pre=pre.get("text"), name=name)
     except RecursionError as e:
+        # nmfu's main() turns this into a compile error (the repair recorded in known_findings.json);
+        # a tree without that handler lets the exception escape
+        if hasattr(nmfu, "_main"):
+            return Outcome("compile", msg="recursion limit reached (diagnosed by main())", exc=e)
         return Outcome("internal", msg="RecursionError", exc=e)
     except Exception as e:
         tb = traceback.extract_tb(e.__traceback__)
